@@ -108,6 +108,20 @@ def confirm(chk, cat, ents, nm, viol, pats, names, label, binary):
     if inert:
         want = [w for w in want if w[1] != text]
     okk = got is not None and sorted(got) == sorted(want)
+    if okk and inert and not binary and 'read' in why:
+        # the file is read although it must be inert: observable only if its bytes can make the read fail
+        def as_binary(es):
+            return [('dir', x[1], as_binary(x[2])) if x[0] == 'dir' else (x + ('binary',) if x[1] == text else x) for x in es]
+        root2 = os.path.join(chk.native.dir, 'tree%d' % chk.native.n)
+        chk.native.n += 1
+        conc2 = as_binary(conc)
+        dl.materialise(conc2, root2, lambda tag: pn)
+        got2, want2, raw2 = dl.native_union(chk, cat, root2, pn)
+        want2 = [w_ for w_ in want2 if w_[1] != text]
+        if got2 is not None and sorted(got2) == sorted(want2):
+            chk.ok()
+            return
+        got, want, raw, conc, okk = got2, want2, raw2, conc2, False
     if okk:
         chk.broken('%s: engine says "%s" for the name %r but the real analyze_dir behaves as required' % (label, why, text))
     chk.violation('%s:eligibility:%s' % (cat, 'inert-file-not-inert' if inert else 'eligible-file-skipped'),
